@@ -40,8 +40,9 @@ def run(rep):
     paths = probe_paths()
     cases = []
     for t in tables:
-        probes = [{"path": p, "method": m, "enc": False} for p in paths for m in ("GET", "POST")]
-        probes += [{"path": p, "method": "GET", "enc": True} for p in rnd.sample(paths, 6)]
+        has_hg = '"hg": true' in json.dumps(t["table"])
+        probes = [{"path": p, "method": m, "enc": False, "hx": hx} for p in paths for m in ("GET", "POST") for hx in ((False, True) if has_hg else (False,))]
+        probes += [{"path": p, "method": "GET", "enc": True, "hx": False} for p in rnd.sample(paths, 6)]
         if quick:
             probes = rnd.sample(probes, 40)
         cases.append({"table": t["table"], "probes": probes})
@@ -49,15 +50,15 @@ def run(rep):
     rep.cov["scripts_generated"] = len(tables)
     rep.cov["distinct_nontrivial"] = n_req
     rep.cov["exhaustive"] = not quick
-    rep.cov["rule"] = ("RoutingMC enumerates every ordered selection of up to MaxTop distinct top-level services from a library of 11 scope/resource "
-                       "templates (static, dynamic and tail patterns, nested scopes, method guards at scope/resource/route level, per-level data "
+    rep.cov["rule"] = ("RoutingMC enumerates every ordered selection of up to MaxTop distinct top-level services from a library of 16 scope/resource "
+                       "templates (static, dynamic and tail patterns, multi-pattern resources, nested scopes, one or two guards at scope/resource/route level, per-level data "
                        "and defaults, duplicate prefixes) x app default on/off; each table is built as a real App and probed with every path of "
                        "up to 3 segments over {a, b, 1, a%2Fb, empty} x {GET, POST} (sampled in the quick tier); distinct = (table, request) pairs")
     rep.sample({"table": cases[0]["table"], "probes": cases[0]["probes"][:3]})
     tpath = ar.run_cases(cases, "all")
     ar.selftest(tpath, corrupt, "handler id + 1")
     rep.assumptions += ["'nearest enclosing default' is read as: a matched scope is committed, later siblings are not tried (DESIGN.md 4 C09)",
-                        "host/header guards are represented by method guards (same Guard mechanism)"]
+                        "guards are method guards and one header guard (same Guard mechanism for host and custom guards)"]
 
 
 def replay(rep, path):
